@@ -338,4 +338,40 @@ theorem startsLoop_perm {a b : List Mode} (h : a.Perm b) :
       · rw [a1, b1, e1]
       · rw [a2, b2, e2]
 
+/-! ### `Shift` to the left in terms of `ActiveAt` and `Cut` -/
+
+/-- What the negative branch of `Shift` returns, in terms of `ActiveAt`: the segments from the active one
+on, the active one replaced by the `after` part of cutting it at the remaining offset. -/
+def afterAt (D : Int) (segs : List Seg) : List Seg :=
+  let r := activeAtLoop D 0 0 segs
+  match segs.drop r.2 with
+  | [] => []
+  | s :: rest =>
+    match s.len with
+    | none => s :: rest
+    | some _ => (cutSeg (D - r.1) s).after.getD nilSeg :: rest
+
+theorem shiftNegLoop_eq_afterAt (D : Int) (segs : List Seg) (cur : Int) :
+    shiftNegLoop D cur segs = afterAt (D - cur) segs := by
+  induction segs generalizing cur with
+  | nil => rfl
+  | cons s rest ih =>
+    cases hl : s.len with
+    | none =>
+      simp only [shiftNegLoop, hl, afterAt, activeAtLoop_cons_none _ s rest hl, List.drop_zero]
+    | some l =>
+      simp only [shiftNegLoop, hl]
+      by_cases hc : cur + l > D
+      · have h' : l > D - cur := by omega
+        simp only [hc, if_true, afterAt, activeAtLoop_cons_some _ s rest l hl, h', List.drop_zero, hl]
+        simp
+      · have h' : ¬ l > D - cur := by omega
+        simp only [hc, if_false]
+        rw [ih (cur + l)]
+        simp only [afterAt, activeAtLoop_cons_some _ s rest l hl, h', if_false, List.drop_succ_cons]
+        have e1 : D - (cur + l) = D - cur - l := by omega
+        rw [e1]
+        have e2 : ∀ x : Int, D - cur - (l + x) = D - cur - l - x := fun x => by omega
+        simp only [e2]
+
 end ScVerif.C18
